@@ -77,7 +77,10 @@ Proof.
   assert (Hok : debracket_ok s h b = true).
   { destruct (debracket_ok s h b) eqn:E; [reflexivity|]. exfalso.
     assert (In (s, h, b) bad_debracket_meaning).
-    { unfold bad_debracket_meaning. apply in_flat_map. exists (s, h). split; [apply sym_h_complete|].
+    { unfold bad_debracket_meaning.
+      (* explicit instance: [apply in_flat_map] alone lets unification reduce the tables (12 minutes) *)
+      refine (proj2 (in_flat_map (fun p : bracket_symbol * option virtual_hydrogen => let '(s0, h0) := p in map (fun b0 => (s0, h0, b0)) (filter (fun b0 => negb (debracket_ok s0 h0 b0)) sums)) sym_h (s, h, b)) _).
+      exists (s, h). split; [apply sym_h_complete|].
       apply in_map. apply filter_In. split; [apply N_below_complete; exact Hb | rewrite E; reflexivity]. }
     rewrite H in H0. exact H0. }
   unfold debracket_ok in Hok. destruct (N.ltb_spec 255 (b + hcount_of h)) as [Hgt|_]; [lia|].
